@@ -30,7 +30,7 @@ VERDICT_INVS = ("AuthHolds", "VpcHolds", "ScopeHolds", "ResumeHolds", "ResumeSco
 OBSERVATION_INV = "RevocationEffective"
 CHUNK = 8000
 QUICK_SAMPLE = 12000      # cases of the thorough universe replayed in the quick tier (seeded sample)
-SESSIONS = {"quick": (48, 12), "thorough": (320, 24)}     # free-running: (sessions, requests per session)
+SESSIONS = {"quick": (128, 24), "thorough": (512, 48)}     # free-running: (sessions, requests per session)
 
 _RE_VIOL = re.compile(r"Error: Invariant (\w+) is violated by the initial state:\s*\n(?:/\\ )?l = (\d+)")
 _RE_UNIV = re.compile(r'<<\s*"(universe|auth|scope|resume)",\s*\[(.*?)\]\s*>>', re.S)
